@@ -271,7 +271,7 @@ def clenshaw_qbfs_der(cs, usq, j=1, alphas=None):
     # seed with j=0 (S, not its derivative)
     clenshaw_qbfs(cs, usq, alphas[0])
     for jj in range(1, j+1):
-        alphas[jj][M-j] = -4 * jj * alphas[jj-1][M-jj+1]
+        alphas[jj][M-jj] = -4 * jj * alphas[jj-1][M-jj+1]
         for n in range(M-2, -1, -1):
             # this is hideous, and just expresses:
             # for the jth derivative, alpha_n is 2 - 4x * a_n+1 - a_n+2 - 4 j a_n+1^j-1
